@@ -130,11 +130,32 @@ inline void Exec::new_free(int ki, int ni) {
     K.news.erase(K.news.begin() + ni);
 }
 
-inline void Exec::new_setfreq(int ki, int ni, bool force_valid) {
+inline void Exec::new_setfreq(int ki, int ni, bool force_valid, int replace_mode) {
     CalObj &K = *cals[ki]; NewObj &N = *K.news[ni];
     if (N.F == 0) { excl_zero_freq = true; if (!no_exclude) return; }
     std::vector<double> fv = N.sc.freq;
     const char *why = "valid"; bool ok = true;
+    // REPLACING a vector that was already accepted: the same grid again, another grid inside the band (every vector
+    // parameter of the scenario's standards has its knots on the band, so it still covers it), or a grid that is valid by
+    // itself but that an ACCEPTED standard's vector parameter misses by a clear margin (x10, /10, x1.5; the library's own
+    // slack is 1 %) -- the last one must be refused by the range check and must change nothing.
+    bool limited = false;
+    for (int pi : N.registered) if (K.params[pi].kind == ParamRec::VECTOR) limited = true;
+    bool refused_range = false, replaced_inside = false;
+    if (N.F > 0 && N.freq_set) {
+        int mode = replace_mode >= 0 ? replace_mode : c.weighted({3, 3, limited ? 3u : 0u});
+        if (mode == 2 && !limited) mode = 1;
+        if (mode == 1) {
+            double lo = N.sc.freq.front() * 1.002, hi = N.sc.freq.back() * 0.998, f0 = N.sc.freq.front(), f1 = N.sc.freq.back();
+            if (N.F >= 2 && hi > lo) { for (auto &x : fv) x = lo + (hi - lo) * (x - f0) / (f1 - f0); replaced_inside = true; why = "replacement-inside-band"; }
+            force_valid = true;      // (one frequency: the same point again -- anything else would lean on the library's internal slack)
+        } else if (mode == 2) {
+            static const double factor[] = {10.0, 0.1, 1.5};
+            double k2 = factor[c.draw(3)];
+            for (auto &x : fv) x *= k2;
+            refused_range = true; why = "replacement-misses-accepted-parameter"; force_valid = true;
+        } else if (replace_mode >= 0) force_valid = true;
+    }
     if (N.F > 0 && !force_valid && c.chance(1, 6)) {
         switch (c.draw(3)) {
         case 0: fv[c.draw(fv.size())] = -1e6; why = "negative-frequency"; ok = false; break;
@@ -147,13 +168,18 @@ inline void Exec::new_setfreq(int ki, int ni, bool force_valid) {
     // A valid grid is refused exactly when a parameter of an ACCEPTED standard misses the band (here by a factor >= 40; the
     // library's own slack is ~1 %).  Parameters that only REJECTED standards referenced must not matter ("a rejected
     // standard adds nothing"): then the call must succeed -- XP_MUST, the clause itself.
-    Expect ex = !ok ? XP_FAIL : N.noncover ? XP_FAIL : (N.F > 0 ? XP_MUST : XP_OK);
+    Expect ex = !ok ? XP_FAIL : (N.noncover || refused_range) ? XP_FAIL : (N.F > 0 ? XP_MUST : XP_OK);
     if (ok && N.noncover) why = "accepted-parameter-misses-band";
     if (N.adds_attempted > 0) c.label("setfreq-after-adds");
+    if (N.freq_set && ok) c.label(refused_range ? "setfreq-replace:refused-range" : "setfreq-replace:accepted");
+    else if (N.freq_set) c.label("setfreq-replace:refused-invalid-vector");
     Call k = mk("vnacal_new_set_frequency_vector", ex, C_USAGE, why, O_NEW, ki, ni);
     int rc = icall(k, [&] { return vnacal_new_set_frequency_vector(N.p, fb->p); });
-    if (rc == 0) { N.freq_set = true; N.hist.push_back([fb](vnacal_new_t *p, const std::function<int(int)> &) { return vnacal_new_set_frequency_vector(p, fb->p); }); N.hist_desc.push_back("set_frequency_vector"); }
-    else N.refused++;
+    if (rc == 0) {
+        N.freq_set = true; N.cur_freq = fv;
+        if (replaced_inside && fv != N.sc.freq) N.pristine = false;      // vector standards are now interpolated between their knots: no accuracy claims
+        N.hist.push_back([fb](vnacal_new_t *p, const std::function<int(int)> &) { return vnacal_new_set_frequency_vector(p, fb->p); }); N.hist_desc.push_back("set_frequency_vector");
+    } else N.refused++;
 }
 
 inline void Exec::new_knobs(int ki, int ni) {
@@ -261,7 +287,8 @@ inline void Exec::new_add(int ki, int ni, bool allow_bad, int force_twist) {
     int P = sc.P;
     // the standard: next of the baseline set, or an extra one
     cs::Standard st; bool from_todo = false;
-    if (force_twist == 9 && P >= 2) { cs::Gen g(c, sc); auto pp = g.perm_ports(2); st = g.dbl(pp[0], pp[1], cs::rnd_disk(c, 0, 1.0L), cs::rnd_disk(c, 0, 1.0L), false, 0); }
+    if (forced_std) st = *forced_std;
+    else if (force_twist == 9 && P >= 2) { cs::Gen g(c, sc); auto pp = g.perm_ports(2); st = g.dbl(pp[0], pp[1], cs::rnd_disk(c, 0, 1.0L), cs::rnd_disk(c, 0, 1.0L), false, 0); }
     else if (!N.todo.empty() && !c.chance(1, 5)) { st = N.todo.back(); from_todo = true; }
     else {
         cs::Gen g(c, sc);
@@ -457,7 +484,8 @@ inline void Exec::new_add_unknown(int ki, int ni, int reuse) {
 
 // a successful solve wrote every unknown / correlated parameter of N back, over N's frequencies
 inline void Exec::mark_solved(CalObj &K, NewObj &N) {
-    for (int pi : N.registered) if (K.params[pi].kind >= ParamRec::UNKNOWN) { K.params[pi].solved = true; K.params[pi].solved_grid = N.sc.freq; }
+    N.solved_freq = N.cur_freq;
+    for (int pi : N.registered) if (K.params[pi].kind >= ParamRec::UNKNOWN) { K.params[pi].solved = true; K.params[pi].solved_grid = N.cur_freq; }
 }
 
 inline bool Exec::new_solve(int ki, int ni) {
@@ -482,7 +510,7 @@ inline bool Exec::new_solve(int ki, int ni) {
     int rc = icall(k, [&] { return vnacal_new_solve(N.p); });
     did_solve = true;
     if (rc != 0) { N.failed_solve = true; return false; }
-    N.has_cal = true; N.ever_solved = true;
+    N.has_cal = true; N.ever_solved = true; N.solved_freq = N.cur_freq;
     mark_solved(K, N);
     if (!(ex == XP_MUST)) return true;
     // "a failed solve can be retried after adding standards": the calibration must also be the right one
@@ -561,7 +589,7 @@ inline void Exec::shared_unknown_scenario(int ki) {
     if (K.news.empty()) return;
     int n1 = (int)K.news.size() - 1;
     if (!K.news[n1]->freq_set) return;
-    std::vector<double> f1 = K.news[n1]->sc.freq;
+    std::vector<double> f1 = K.news[n1]->cur_freq;
     for (int guard = 0; guard < 16 && !K.news[n1]->todo.empty(); guard++) new_add(ki, n1, false);
     size_t before = K.params.size();
     new_add_unknown(ki, n1);
@@ -582,7 +610,7 @@ inline void Exec::shared_unknown_scenario(int ki) {
     if (!K.news[n2]->registered.count(u)) return;
     if (!new_solve(ki, n2)) return;
     c.label("shared-unknown-resolved:smaller-grid");
-    const std::vector<double> &f2 = K.news[n2]->sc.freq;
+    const std::vector<double> &f2 = K.news[n2]->cur_freq;
     int h = K.params[u].h;
     auto query = [&](double f, Expect ex, const char *why) {
         c.note("vnacal_get_parameter_value(k%d, %d, %g)  %s", ki, h, f, why);
@@ -613,10 +641,52 @@ inline void Exec::late_setfreq_scenario(int ki) {
     if (c.boolean()) { for (int guard = 0; guard < 32 && !K.news[ni]->todo.empty(); guard++) new_add(ki, ni, false); new_solve(ki, ni); }
 }
 
+// "a refused setter changes nothing": frequency vector set, all baseline standards (at least one of them described by a
+// vector parameter), then the vector is REPLACED -- by a grid the vector parameter misses (refused) and / or by one inside
+// the band (accepted) -- and the calibration is solved and stored: its frequency vector must be the last accepted one
+// (check_cal_index) and equal to the clone's (C11 clone history).
+inline void Exec::replace_freq_scenario(int ki) {
+    CalObj &K = *cals[ki];
+    AllocSpec sp; sp.ty = (int)c.draw(8); sp.r = sp.c = (int)c.range(1, 2); sp.F = (int)c.range(1, 4);
+    new_alloc(ki, true, true, &sp);
+    if (K.news.empty()) return;
+    int ni = (int)K.news.size() - 1;
+    if (!K.news[ni]->freq_set) return;
+    bool early = c.boolean();            // replace before or after the bulk of the standards
+    auto limited = [&] { for (int pi : K.news[ni]->registered) if (K.params[pi].kind == ParamRec::VECTOR) return true; return false; };
+    auto add_vector_standard = [&] {
+        NewObj &N = *K.news[ni];
+        cs::Gen g(c, N.sc);
+        vm::C gamma = cs::rnd_disk(c, 0.3L, 1.0L);
+        cs::Standard st = g.single((int)c.draw(std::min(N.sc.r, N.sc.c)), gamma, true);
+        st.entry = cs::Standard::SINGLE;
+        st.cells[0].kind = cs::SCell::VECTOR; st.cells[0].v.clear();
+        for (int f = 0; f < N.sc.F; f++) st.cells[0].v.push_back(gamma * cs::polar(1, 0.05L * f));
+        g.finish(st);
+        forced_std = &st; new_add(ki, ni, false); forced_std = nullptr;
+    };
+    if (early) { if (!limited()) add_vector_standard(); }
+    else { for (int guard = 0; guard < 32 && !K.news[ni]->todo.empty(); guard++) new_add(ki, ni, false); if (!limited()) add_vector_standard(); }
+    if (!limited()) return;
+    int how = c.weighted({3, 1, 2});     // refused only / accepted only / refused then accepted
+    if (how != 1) new_setfreq(ki, ni, true, 2);
+    if (how != 0) new_setfreq(ki, ni, true, 1);
+    for (int guard = 0; guard < 32 && !K.news[ni]->todo.empty(); guard++) new_add(ki, ni, false);
+    if (!new_solve(ki, ni)) return;
+    NewObj &N = *K.news[ni];
+    if (!N.has_cal) return;
+    std::string name = CAL_NAMES[c.draw(sizeof CAL_NAMES / sizeof *CAL_NAMES)];
+    c.note("vnacal_add_calibration(k%d, %s, k%d.n%d)", ki, ascii(name).c_str(), ki, ni);
+    Call k = mk("vnacal_add_calibration", XP_OK, C_USAGE, "valid", O_CAL, ki);
+    int ci = icall(k, [&] { return vnacal_add_calibration(K.p, name.c_str(), N.p); });
+    if (ci >= 0) { N.has_cal = false; check_cal_index(ki, ci, name, &N); }
+}
+
 inline void Exec::op_new() {
     int ki = need_cal();
     if (ki < 0) return;
-    int w = c.weighted({30, 3, 2, 2, 5, 4, 4, 8, 3, 2, 2});
+    int w = c.weighted({30, 3, 2, 2, 5, 4, 4, 8, 3, 2, 2, 2});
+    if (w == 11) { replace_freq_scenario(ki); return; }
     if (w == 1) { new_alloc(ki); return; }
     if (w == 8) { new_retry_scenario(ki); return; }
     if (w == 9) { shared_unknown_scenario(ki); return; }
